@@ -184,7 +184,7 @@ def verdict_under_lock(ck, tm, rule):
             return False
         seen.add(fn)
         for name, foreign, local, t in facts.callees_of(b):
-            if "atomic::Atomic" in name and name.split("::")[-1] == "load":
+            if "atomic::Atomic" in name and name.split("::")[-1] in roles.ATOMIC_READS:
                 return True
             if local and loads_a_counter(name, depth + 1, seen):
                 return True
